@@ -33,9 +33,25 @@ package chain
 //@   ensures (err == nil) == (b.ChainID == Rules.GetChainID(r) && b.Timestamp % 1000 == 0 && b.Timestamp >= timestamp && b.Timestamp <= timestamp + Rules.GetValidityWindow(r))
 //@   ensures b.ChainID != Rules.GetChainID(r) ==> is(err, ErrInvalidChainID)
 
-//@ func (*Transaction).Units
+//@ func Auth.ComputeUnits
+//@   pure
+//@ func (*Transaction).StateKeys
 //@   trusted
 //@   noframe
+// Units (C12): bandwidth is the transaction's size; compute is the rules' base plus every action's and
+// the auth's compute units, summed exactly (an overflow is an error, never a wrapped number).  The
+// storage dimensions are accumulated per declared key with the same overflow-checked operator; their
+// exact sum over the key map is not stated (no sum operator over map keys).
+//@ func (*Transaction).Units props C12
+//@   noframe
+//@   reveal actCompute
+//@   loop 1 invariant 0 <= idx1 && idx1 <= len(t.Actions) && !isnil(computeOp)
+//@   loop 1 invariant computeOp.err == nil ==> computeOp.v == Rules.GetBaseComputeUnits(r) + actCompute(t.Actions, idx1, r)
+//@   loop 1 invariant computeOp.err != nil ==> Rules.GetBaseComputeUnits(r) + actCompute(t.Actions, idx1, r) > MAX
+//@   loop 2 invariant !isnil(readsOp) && !isnil(allocatesOp) && !isnil(writesOp)
+//@   ensures err == nil && t.size >= 0 ==> result0[0] == t.size
+//@   ensures err == nil ==> result0[1] == Rules.GetBaseComputeUnits(r) + actCompute(t.Actions, len(t.Actions), r) + Auth.ComputeUnits(t.Auth, r)
+//@   ensures Rules.GetBaseComputeUnits(r) + actCompute(t.Actions, len(t.Actions), r) + Auth.ComputeUnits(t.Auth, r) > MAX ==> err != nil
 //@ func (*Transaction).GetID
 //@   pure
 //@ func CreateActionID
@@ -101,6 +117,7 @@ package chain
 //@   pure
 //@ func (*Transaction).Size
 //@   pure
+//@   ensures result == t.size
 
 // ---- balance handlers, abstractly (C27): the balance of an address is an 8-byte big-endian record
 // under a key that is an injective function of the address; AddBalance adds exactly the amount to
